@@ -69,6 +69,10 @@ def prepare(hist, tmp, tag, base_root=None, base_ctx=None):
                          % (type(e).__name__, str(e)[:160], where), None))
         return ctx, viol
     ctx.rr = rr
+    for when, what in rr.live_violations[:3]:
+        viol.append(('C01:live-read-shows-uncommitted', 'a read through the running storage %s does not show the '
+                     'committed state (an unfinished or aborted transaction must be absent in full): %s'
+                     % (when, what), None))
     ctx.magic = rr.init['Data.fs'][:4]
     ctx.oids, ctx.tids = history_oids_tids(hist)
     ctx.base_n = 0
